@@ -16,6 +16,19 @@ pub struct ClaimOp {
     pub eth_sig: String,
     /// generator label (histogram only)
     pub tag: String,
+    /// when present the step is not a claim but an operation of the collection
+    /// whitelist's own admin
+    #[serde(default)]
+    pub admin: Option<AdminOp>,
+}
+#[derive(Clone, Debug, Serialize, Deserialize, PartialEq, Eq)]
+pub enum AdminOp {
+    /// RemoveMembers [wallet]
+    WlRemove(String),
+    /// AddMembers [wallet]
+    WlAdd(String),
+    /// UpdateAdmins with (true) / without (false) the airdrop contract
+    WlAirdropAdmin(bool),
 }
 #[derive(Clone, Debug, Serialize, Deserialize, PartialEq, Eq)]
 pub struct Case {
@@ -161,6 +174,39 @@ pub fn run_case(case: &Case, name: &str) -> Outcome {
     let mut total_paid: u128 = 0;
     let mut senders: BTreeSet<String> = BTreeSet::new();
     for (i, op) in case.ops.iter().enumerate() {
+        if let Some(a) = &op.admin {
+            use sg_whitelist::msg::{AddMembersMsg, ExecuteMsg as WlMsg, RemoveMembersMsg};
+            let (msg, who) = match a {
+                AdminOp::WlRemove(m) => (WlMsg::RemoveMembers(RemoveMembersMsg { to_remove: vec![m.clone()] }), Some(m.clone())),
+                AdminOp::WlAdd(m) => (WlMsg::AddMembers(AddMembersMsg { to_add: vec![m.clone()] }), Some(m.clone())),
+                AdminOp::WlAirdropAdmin(b) => {
+                    let mut admins = vec![CREATOR.to_string()];
+                    if *b {
+                        admins.push(w.airdrop.to_string());
+                    }
+                    (WlMsg::UpdateAdmins { admins }, None)
+                }
+            };
+            let ok = w.wl_admin_exec(&msg).is_ok();
+            out.steps += 1;
+            out.step_info.push((op.tag.clone(), ok, false));
+            let nm = w.wl_num_members();
+            let member = who.as_ref().map(|m| w.has_member(m).unwrap_or(false)).unwrap_or(false);
+            // the property text on the admin's own operations: a removed wallet is off, an added one is on
+            match a {
+                AdminOp::WlRemove(m) if ok && member => out.violations.push(("C16:whitelist-remove-ineffective".into(), format!("step {}: RemoveMembers [{}] succeeded, HasMember still true", i, m))),
+                AdminOp::WlAdd(m) if ok && !member => out.violations.push(("C16:whitelist-add-ineffective".into(), format!("step {}: AddMembers [{}] succeeded, HasMember false", i, m))),
+                _ => {}
+            }
+            let term = match a {
+                AdminOp::WlRemove(m) => format!("WlRemove {} {} {} {}", coq_bytes(m.as_bytes()), coq_bool(ok), coq_bool(member), nm),
+                AdminOp::WlAdd(m) => format!("WlAdd {} {} {} {}", coq_bytes(m.as_bytes()), coq_bool(ok), coq_bool(member), nm),
+                AdminOp::WlAirdropAdmin(b) => format!("WlAirdropAdmin {} {}", coq_bool(*b), coq_bool(ok)),
+            };
+            out.defs.push(format!("Definition {}_s{} : c16_step := {}.", name, i, term));
+            steps_coq.push(format!("{}_s{}", name, i));
+            continue;
+        }
         senders.insert(op.sender.clone());
         // ---- independent oracle answers for this call
         let text = spec.template.replace("{wallet}", &op.sender);
@@ -216,7 +262,12 @@ pub fn run_case(case: &Case, name: &str) -> Outcome {
         };
         let mut viol = |key: &str, what: String| out.violations.push((key.to_string(), format!("step {} ({}): {}", i, op.tag, what)));
         if ok {
-            if !on_list {
+            if ident.is_none() {
+                viol(
+                    "C16:accepted-malformed-address",
+                    format!("claim succeeded for {:?}, which is not a well-formed Ethereum address (0x + 40 hex digits)", op.eth_address),
+                );
+            } else if !on_list {
                 viol("C16:claim-without-eligibility", format!("claim for {} succeeded, the address is not on the list", op.eth_address));
             }
             if !ind_valid {
@@ -236,7 +287,21 @@ pub fn run_case(case: &Case, name: &str) -> Outcome {
             }
             total_paid += spec.airdrop_amount;
             *successes_str.entry(op.eth_address.clone()).or_insert(0) += 1;
-            if let Some(id) = ident.clone() {
+            // per key: a well-formed string counts for the address it denotes, any other string
+            // for the address of the key that made the signature (independent recovery)
+            let signer: Option<Vec<u8>> = match &o_sig {
+                Some(sg) if sg.len() == 65 => {
+                    let rid = match sg[64] {
+                        0 | 27 => Some(0u8),
+                        1 | 28 => Some(1u8),
+                        _ => None,
+                    };
+                    rid.and_then(|r| ind_recover(&hash, &sg[..64], r)).and_then(|p| ind_address_of(&p)).map(|a| a.to_vec())
+                }
+                _ => None,
+            };
+            if let Some(id) = ident.clone().or(signer) {
+                let ident = Some(id.clone());
                 let n = successes.entry(id).or_insert(0);
                 *n += 1;
                 if *n > spec.per_address_limit as u64 {
@@ -457,7 +522,10 @@ fn near_miss_digests(template: &str, text: &str) -> Vec<(&'static str, [u8; 32])
 }
 
 fn op(sender: &str, addr: &str, sig: &str, tag: &str) -> ClaimOp {
-    ClaimOp { sender: sender.into(), eth_address: addr.into(), eth_sig: sig.into(), tag: tag.into() }
+    ClaimOp { sender: sender.into(), eth_address: addr.into(), eth_sig: sig.into(), tag: tag.into(), admin: None }
+}
+fn admin_op(a: AdminOp, tag: &str) -> ClaimOp {
+    ClaimOp { sender: String::new(), eth_address: String::new(), eth_sig: String::new(), tag: tag.into(), admin: Some(a) }
 }
 /// (r, n - s, v with flipped parity): the other ECDSA signature of the same message
 fn malleate(sig: &[u8; 65]) -> [u8; 65] {
@@ -589,6 +657,129 @@ fn gen_cases(a: &Args) -> Vec<Case> {
         let spec = WorldSpec::basic(bad.clone(), 2);
         let s2 = hex::encode(valid_sig(&spec, &k[2], w2));
         cases.push(Case { label: "corpus:malformed-on-list".into(), spec, ops: bad.iter().map(|b| op(w2, b, &s2, "addr-malformed-listed")).collect() });
+    }
+    {
+        // malformed spellings of a listed key's address AS LIST ENTRIES (the list is not validated
+        // at instantiation and eligibility is an exact string match): sign characters or a space
+        // inside a byte pair, 0X, no prefix, 39/41 digits, non-hex.  The key is one whose address
+        // has a byte below 0x10, so that "+a" / "-a" / " a" are candidates for 0x0a.
+        let mut mk: Option<EthKey> = None;
+        for i in 0..200u64 {
+            let cand = eth_key(a.seed, i);
+            if cand.addr_bytes.iter().any(|b| *b < 0x10) {
+                mk = Some(cand);
+                break;
+            }
+        }
+        let mk = mk.expect("a key whose address has a small byte");
+        let good = mk.addr_lower.clone();
+        let h = &good[2..];
+        let small: Vec<usize> = (0..20).filter(|i| mk.addr_bytes[*i] < 0x10).collect();
+        let mut bad: Vec<String> = vec![];
+        for (n, bi) in small.iter().enumerate().take(2) {
+            let p = 2 * bi;
+            for c in ["+", "-", " ", "x", "_"] {
+                bad.push(format!("0x{}{}{}", &h[..p], c, &h[p + 1..]));
+            }
+            if n == 0 {
+                // the low nibble position and both nibbles
+                bad.push(format!("0x{}{}+{}", &h[..p], &h[p + 1..p + 2], &h[p + 2..]));
+            }
+        }
+        // every small byte written with '+' at once
+        {
+            let mut v: Vec<u8> = h.as_bytes().to_vec();
+            for bi in &small {
+                v[2 * bi] = b'+';
+            }
+            bad.push(format!("0x{}", String::from_utf8(v).unwrap()));
+        }
+        bad.extend([
+            format!("0X{}", h),
+            h.to_string(),
+            format!("00{}", h),
+            format!("0x{}", &h[..39]),
+            format!("0x{}0", h),
+            format!("0x{}", &h[1..]),
+            format!("0x{}g", &h[..39]),
+            format!("0x{}", h.replacen(&h[0..1], "o", 1)),
+            format!(" 0x{}", &h[..39]),
+            format!("0x{} ", &h[..39]),
+            format!("+0x{}", &h[..39]),
+            format!("0x+{}", &h[..39]),
+        ]);
+        bad.sort();
+        bad.dedup();
+        bad.retain(|b| *b != good);
+        for (label, list, limit) in [
+            ("corpus:malformed-spellings-next-to-good", { let mut l = vec![good.clone()]; l.extend(bad.clone()); l }, 1u32),
+            ("corpus:malformed-spellings-only", { let mut l = vec![lower(1)]; l.extend(bad.clone()); l }, 2u32),
+        ] {
+            let mut spec = WorldSpec::basic(list, limit);
+            spec.inst_funds = 100_000_000 + 60 * spec.airdrop_amount;
+            let sg = hex::encode(valid_sig(&spec, &mk, w0));
+            let mut ops = vec![];
+            if label.ends_with("good") {
+                ops.push(op(w0, &good, &sg, "valid"));
+            }
+            for b in &bad {
+                ops.push(op(w0, b, &sg, "addr-malformed-listed"));
+            }
+            // and by another wallet with its own genuine signature
+            let sg1 = hex::encode(valid_sig(&spec, &mk, w1));
+            for b in bad.iter().take(8) {
+                ops.push(op(w1, b, &sg1, "addr-malformed-listed"));
+            }
+            if !label.ends_with("good") {
+                ops.push(op(w0, &good, &sg, "not-eligible"));
+            }
+            cases.push(Case { label: label.into(), spec, ops });
+        }
+    }
+    {
+        // the collection whitelist's own admin acts between claims: removes an earlier claimant,
+        // adds a future one, takes the airdrop contract off the admin list and puts it back.
+        // After EVERY successful claim the caller must be on the collection whitelist.
+        let spec = WorldSpec::basic(vec![lower(0), lower(1), lower(2)], 3);
+        let sig = |ki: usize, w: &str| hex::encode(valid_sig(&spec, &k[ki], w));
+        let ops = vec![
+            op(w0, &lower(0), &sig(0, w0), "valid"),
+            admin_op(AdminOp::WlRemove(w0.into()), "wl-remove-claimant"),
+            op(w0, &lower(1), &sig(1, w0), "valid-after-removal"),
+            admin_op(AdminOp::WlAdd(w1.into()), "wl-add-future-claimant"),
+            op(w1, &lower(2), &sig(2, w1), "valid-already-member"),
+            admin_op(AdminOp::WlRemove(w1.into()), "wl-remove-claimant"),
+            admin_op(AdminOp::WlRemove(w1.into()), "wl-remove-non-member"),
+            op(w1, &lower(0), &sig(0, w1), "valid-after-removal"),
+            admin_op(AdminOp::WlRemove(w0.into()), "wl-remove-claimant"),
+            admin_op(AdminOp::WlRemove(w1.into()), "wl-remove-claimant"),
+            op(w1, &lower(1), &sig(1, w1), "valid-after-removal"),
+            op(w0, &lower(2), &sig(2, w0), "valid-after-removal"),
+            admin_op(AdminOp::WlAirdropAdmin(false), "wl-airdrop-not-admin"),
+            op(w2, &lower(1), &sig(1, w2), "valid-airdrop-not-admin"),
+            admin_op(AdminOp::WlAirdropAdmin(true), "wl-airdrop-admin-again"),
+            op(w2, &lower(1), &sig(1, w2), "valid"),
+            admin_op(AdminOp::WlRemove(w2.into()), "wl-remove-claimant"),
+            op(w2, &lower(0), &sig(0, w2), "valid-after-removal"),
+        ];
+        cases.push(Case { label: "corpus:wl-admin-between-claims".into(), spec: spec.clone(), ops });
+        // member limit reached by the admin's own additions, freed again by a removal
+        let mut spec2 = WorldSpec::basic(vec![lower(0), lower(1), lower(2)], 3);
+        spec2.cwl_member_limit = 2;
+        let sig2 = |ki: usize, w: &str| hex::encode(valid_sig(&spec2, &k[ki], w));
+        let ops = vec![
+            admin_op(AdminOp::WlAdd("stars1early".into()), "wl-add-other"),
+            admin_op(AdminOp::WlAdd("stars1early2".into()), "wl-add-other"),
+            admin_op(AdminOp::WlAdd("stars1early3".into()), "wl-add-over-limit"),
+            op(w0, &lower(0), &sig2(0, w0), "valid-member-limit-reached"),
+            admin_op(AdminOp::WlRemove("stars1early".into()), "wl-remove-other"),
+            op(w0, &lower(0), &sig2(0, w0), "valid"),
+            op(w1, &lower(1), &sig2(1, w1), "valid-member-limit-reached"),
+            op(w0, &lower(1), &sig2(1, w0), "valid-member-limit-reached"), // already a member, still refused: the limit test comes first
+            admin_op(AdminOp::WlRemove(w0.into()), "wl-remove-claimant"),
+            op(w0, &lower(2), &sig2(2, w0), "valid-after-removal"),
+        ];
+        cases.push(Case { label: "corpus:wl-admin-member-limit".into(), spec: spec2, ops });
     }
     {
         // one Ethereum address listed under two spellings (candidate finding: each spelling has its own counter)
@@ -867,6 +1058,16 @@ fn gen_cases(a: &Args) -> Vec<Case> {
         let mut ops = vec![];
         let mut last: Option<ClaimOp> = None;
         for _ in 0..nops {
+            if rng.chance(1, 8) {
+                let who = WALLETS[rng.below(WALLETS.len() as u64) as usize].to_string();
+                ops.push(match rng.below(6) {
+                    0 | 1 | 2 => admin_op(AdminOp::WlRemove(who), "wl-remove-random"),
+                    3 => admin_op(AdminOp::WlAdd(who), "wl-add-random"),
+                    4 => admin_op(AdminOp::WlAirdropAdmin(false), "wl-airdrop-not-admin"),
+                    _ => admin_op(AdminOp::WlAirdropAdmin(true), "wl-airdrop-admin-again"),
+                });
+                continue;
+            }
             let ki = rng.below(5) as usize;
             let w = WALLETS[rng.below(WALLETS.len() as u64) as usize];
             let addr = if ki == 4 { upper_addr(&lower(4)) } else { lower(ki) };
